@@ -13,8 +13,11 @@ import inspect
 import os
 import sys
 import textwrap
+import warnings
 
-import dumplib as D
+warnings.simplefilter("ignore")       # stderr is captured together with stdout
+
+import dumplib as D  # noqa: E402
 
 import rig
 from rig.machine_control import boot as B, consts, struct_file
